@@ -1384,7 +1384,9 @@ def extract_from_code(code, gettext_functions):
             else:
                 strings = tuple(strings)
             yield node.func.id, strings
-        elif node._fields:
+        # the arguments of a gettext call are evaluated as well: calls nested
+        # in them are searched like everywhere else
+        if node._fields:
             children = []
             for field in node._fields:
                 child = getattr(node, field, None)
